@@ -1860,9 +1860,17 @@ void e_observed()
         }
       }
       int got = r.has_failure() ? enc(r.get_failure_unsafe()) : -1;
-      observe("either::sequence_error", got == want && seen == want_seen,
-              "table=" + std::to_string(t) + " seq=" + show_vec(c) + " got=" + std::to_string(got) +
-                  " want=" + std::to_string(want) + " calls=" + show_vec(seen));
+      // judged: the documentation spells out both the result and the calls made ("calls f(x_1), ..., f(x_i) where f(x_i)
+      // is the first call that returns a failure"); it always held on the pinned tree
+      VF_COUNT("either::sequence_error/judged");
+      if (want >= 0 && want_seen.size() < c.size())
+        VF_COUNT("either::sequence_error/failure-followed-by-more-elements");
+      if (got != want)
+        vf::violation("either::sequence_error/result", "mismatch",
+                      "table=" + std::to_string(t) + " seq=" + show_vec(c) + " got=" + std::to_string(got) + " want=" + std::to_string(want));
+      if (seen != want_seen)
+        vf::violation("either::sequence_error/calls", "mismatch",
+                      "table=" + std::to_string(t) + " seq=" + show_vec(c) + " calls=" + show_vec(seen) + " documented calls=" + show_vec(want_seen));
     }
   for (int o = 0; o < 4; ++o)
   {
